@@ -124,9 +124,15 @@ class Report:
         lines = []
         known_hit = []
         undecided = [o for o in self.obligations if o.status == UNDECIDED]
+        fresh_standin = [(si, fl) for si in self.standins for fl in si.failures if self._standin_known(fl) is None]
         for ob in self.obligations:
             if ob.status != FAILED:
                 continue
+            if fresh_standin and not (isinstance(ob.replay, dict) and ob.replay.get("reproduced")):
+                si0, fl0 = fresh_standin[0]
+                ob.replay = {"reproduced": True, "how": f"bounded stand-in `{si0.name}` run on the same working tree", "input": fl0.get("input"),
+                             "observed": fl0.get("what"), "note": "end-to-end input that fails while this obligation is refuted; "
+                             "the function-level counter-model is in `witness`"}
             kf = self._known_for(ob)
             if kf is not None:
                 # a known finding must still fail *the listed way*: same signature if one is recorded
@@ -141,8 +147,13 @@ class Report:
             if not (ob.replay and isinstance(ob.replay, dict) and ob.replay.get("reproduced")):
                 tail = " no-failing-input-found"
             lines.append(f"VIOLATION property={self.prop} replay={path}{tail}")
+        seen_inputs = set()
         for si in self.standins:
             for fl in si.failures:
+                kk = (si.name, repr(fl.get("input")))
+                if kk in seen_inputs:
+                    continue
+                seen_inputs.add(kk)
                 kf = self._standin_known(fl)
                 if kf is not None:
                     known_hit.append((Obligation(f"{self.prop}.standin.{si.name}", "bounded", kf.get("what", ""), KNOWN), kf))
